@@ -1324,3 +1324,21 @@ func (c *Ctx) entryRefusesModern(fn *Func) bool {
 	}
 	return n > 0
 }
+
+// atomSaysEmpty: the atom establishes len(x) == 0 for an x accepted by match, in any spelling: == 0 / <= 0 / < 1 hold, or
+// != 0 / > 0 / >= 1 do not.
+func atomSaysEmpty(f *Func, a Atom, match func(ast.Expr) bool) bool {
+	x, y, op, ok := binaryCmp(a.E)
+	if !ok {
+		return false
+	}
+	ce, isCe := ast.Unparen(x).(*ast.CallExpr)
+	z, isZ := f.ConstInt(y)
+	if !isCe || !isZ || f.BuiltinName(ce) != "len" || len(ce.Args) != 1 || !match(ce.Args[0]) {
+		return false
+	}
+	if a.Val {
+		return (op == token.EQL && z == 0) || (op == token.LEQ && z == 0) || (op == token.LSS && z == 1)
+	}
+	return (op == token.NEQ && z == 0) || (op == token.GTR && z == 0) || (op == token.GEQ && z == 1)
+}
